@@ -105,6 +105,7 @@ ENABLED_ENTRIES = [
     "sim/invsim/ENTRY.py",
     "sim/gossipsim/ENTRY.py",
     "inpkg/htlcswitch/ENTRY.py",
+    "inpkg/contractcourt/ENTRY_C12.py",
 ]
 
 
